@@ -18,6 +18,7 @@ type fieldRef struct {
 }
 
 type oblig struct {
+	firstRes string // result of the first pass when a rescue pass was needed
 	name   string // stable base name  <func>#<kind>.<label>@<site>
 	path   int
 	kind   string
